@@ -2040,6 +2040,8 @@ class Cursor(object):
         spec = helpers.patch_datetime_awareness_in_document(spec)
         self._spec = spec
         self._sort = sort
+        # A copy, as the filter is one: the query is the one given when find was called.
+        projection = copy.deepcopy(projection)
         self._projection = projection
         self._skip = skip
         self._factory_last_generated_results = None
